@@ -324,9 +324,34 @@ impl DBM {
             "UPDATE towers SET available_slots=?1 WHERE tower_id=?2",
             params![available_slots, tower_id.to_vec()],
         )?;
+        // An accepted appointment is neither pending nor invalid anymore. This is done within the same transaction so the
+        // appointment is never recorded twice (nor nowhere), no matter when the process is stopped.
+        Self::remove_non_accepted(&tx, tower_id, locator, "pending_appointments")?;
+        Self::remove_non_accepted(&tx, tower_id, locator, "invalid_appointments")?;
         #[cfg(feature = "verif")]
         let _after = teos_common::verif::around("cdb.commit.store_appointment_receipt");
         tx.commit()
+    }
+
+    /// Removes the link between a tower and a pending or invalid appointment (`table`), as well as the appointment itself
+    /// if there are no more towers linked to it.
+    fn remove_non_accepted(
+        tx: &rusqlite::Transaction,
+        tower_id: TowerId,
+        locator: Locator,
+        table: &str,
+    ) -> Result<(), SqliteError> {
+        tx.execute(
+            &format!("DELETE FROM {table} WHERE locator=?1 AND tower_id=?2"),
+            params![locator.to_vec(), tower_id.to_vec()],
+        )?;
+        tx.execute(
+            "DELETE FROM appointments WHERE locator=?1
+                AND NOT EXISTS (SELECT 1 FROM pending_appointments WHERE locator=?1)
+                AND NOT EXISTS (SELECT 1 FROM invalid_appointments WHERE locator=?1)",
+            params![locator.to_vec()],
+        )?;
+        Ok(())
     }
 
     /// Loads a given appointment receipt of a given tower from the database.
@@ -564,6 +589,11 @@ impl DBM {
             "INSERT INTO invalid_appointments (locator, tower_id) VALUES (?1, ?2)",
             params![appointment.locator.to_vec(), tower_id.to_vec(),],
         )?;
+        // An invalid appointment is not pending anymore (same transaction, so it is never recorded twice)
+        tx.execute(
+            "DELETE FROM pending_appointments WHERE locator=?1 AND tower_id=?2",
+            params![appointment.locator.to_vec(), tower_id.to_vec()],
+        )?;
 
         #[cfg(feature = "verif")]
         let _after = teos_common::verif::around("cdb.commit.store_invalid_appointment");
@@ -613,8 +643,9 @@ impl DBM {
         proof: &MisbehaviorProof,
     ) -> Result<(), SqliteError> {
         let tx = self.get_mut_connection().transaction().unwrap();
+        // Notice the tower may have already accepted this very same appointment (properly) before
         tx.execute(
-            "INSERT INTO appointment_receipts (tower_id, locator, start_block, user_signature, tower_signature) 
+            "INSERT OR REPLACE INTO appointment_receipts (tower_id, locator, start_block, user_signature, tower_signature) 
                 VALUES (?1, ?2, ?3, ?4, ?5)",
             params![
                 tower_id.to_vec(),
